@@ -553,6 +553,10 @@ def merge_file_level(
 
         if field.metadata.get("merge_topmatter"):
             value = {**old_value, **value}
+        elif getattr(new, name) is not getattr(config, name):
+            # the validator has already stored a normalised value on the copy
+            # (e.g. a set built from a list), which must not be overwritten by the raw one
+            continue
 
         setattr(new, name, value)
 
